@@ -272,6 +272,9 @@ def finish(ctx, mod):
     }
     if ctx.exhaustive is not None:
         cov["exhaustive"] = bool(ctx.exhaustive)
+    from . import obs
+    if obs.BUILD["calls"]:
+        cov["values_built_cold_warm"] = [obs.BUILD["calls"] - obs.BUILD["warm_builds"], obs.BUILD["warm_builds"]]
     cov.update(jsonable(ctx.notes))
     ev = {
         "property_id": ctx.pid, "tier": ctx.tier, "seed": ctx.seed, "level": mod.LEVEL,
@@ -344,6 +347,8 @@ def main(mod, pid, argv):
     a = ap.parse_args(argv)
     shard = tuple(int(x) for x in a.shard.split("/"))
     ctx = Ctx(pid, a.tier, a.seed, shard)
+    from . import obs
+    obs.BUILD["offset"] = a.seed * 131 + shard[0]
     try:
         if a.replay:
             with open(a.replay) as f:
